@@ -3,6 +3,7 @@ mod gen;
 mod imp;
 mod model;
 mod oracles;
+mod prog;
 mod rng;
 mod slices;
 
@@ -63,6 +64,38 @@ fn main() {
             "num" => {
                 let (c, e) = slices::num::cases(&mut rng, &tier);
                 (c, e, "Display/parse of boundary and random doubles, odd numerals, command-word upper-casing over all of Unicode".into())
+            }
+            "c01" => {
+                let (c, e) = slices::sess::c01_cases(&mut rng, &tier);
+                (c, e, "state-aware random walks over the host protocol (submit/continue/reply/break/replace/seed) mixing generated programs, token soup, malformed text, a pool of boundary lines (u64 extremes, huge subscripts, 20 subscripts, big seeds) and nesting 30..3000 deep; after every call: output, state, full snapshot, caret rendering of every error; non-trivial = at least three kinds of event".into())
+            }
+            "c16" => {
+                let (c, e) = slices::sess::c16_cases(&mut rng, &tier);
+                (c, e, "targeted cap / re-entry / typing programs under two flag settings plus random walks, full state snapshot after every host call; non-trivial = at least three kinds of event".into())
+            }
+            "c10" => {
+                let (c, e) = slices::sess::c10_cases(&mut rng, &tier);
+                (c, e, "generated program + random history (earlier runs, failed runs, breaks incl. an unconsumed reply, immediate statements setting variables / arrays / loops / data cursor, GOTO, CONT) then RUN, against a fresh interpreter with the same lines, flags and generator state then RUN; non-trivial = at least two kinds of history event".into())
+            }
+            "c11" => {
+                let (c, e) = slices::sess::c11_cases(&mut rng, &tier);
+                (c, e, "generated program with a function, DATA, a loop, a subroutine and a STOP, suspended after k turns (breakpoint, host break, awaiting input, idle), then one edit (add/replace/delete/DATA/failed) and one probe (CONT/RETURN/NEXT/READ/FN call/GOTO)".into())
+            }
+            "c17" => {
+                let (c, e) = slices::sess::c17_cases(&mut rng, &tier);
+                (c, e, "generated program and input script run under the four warnings/tracing configurations (API fields or TRACE/NOTRACE commands)".into())
+            }
+            "c09" => {
+                let (c, e) = slices::sess::c09_cases(&mut rng, &tier);
+                (c, e, "generated programs without user functions (every fifth non-terminating, every seventh with nested IFs and a 30-item PRINT) run turn by turn with tracing on; per call: records produced and token-cursor reads (hook counter)".into())
+            }
+            "c07" => {
+                let (c, e) = slices::sess::c07_cases(&mut rng, &tier);
+                (c, e, "generated program run uninterrupted vs with host breaks at random turn boundaries (1/5 each), side-effect-free inspection statements (incl. failing ones and failing FN calls) and CONT; plus assignment at a STOP vs the assignment in place of the STOP; non-trivial = at least one break".into())
+            }
+            "c08" => {
+                let (c, e) = slices::sess::c08_cases(&mut rng, &tier);
+                (c, e, "nine INPUT placements (after colon, own line, THEN, ELSE, loop, subroutine, array target, two inputs, THEN..ELSE) x numeric/string target x 21 reply texts, snapshot before and after every reply".into())
             }
             other => {
                 eprintln!("unknown slice {}", other);
